@@ -210,11 +210,12 @@ func raceC08(tier string, r *engine.Result) {
 			wg.Add(1)
 			go func(g int) {
 				defer wg.Done()
+				var link c08Link
 				for i := 0; i < 200; i++ {
 					id := uint32(i % 8) // all goroutines feed the same 8 datagrams: duplicates and completions race
 					for k := 0; k < 4; k++ {
 						a := (k + g) % 4
-						res, done := f.Process(id+uint32(round)*8, uint16(a*16), uint16(a*16+15), a < 3, c08VV(content[a*16:a*16+16], 5))
+						res, done := f.Process(id+uint32(round)*8, uint16(a*16), uint16(a*16+15), a < 3, link.vv(content[a*16:a*16+16], 5))
 						atomic.AddInt64(&ops, 1)
 						if done {
 							atomic.AddInt64(&dones, 1)
